@@ -484,9 +484,18 @@ func (l *Locks) deferredHeld(site ssa.Instruction) LockSet {
 	}
 	out := LockSet{}
 	d := l.deferred[site]
+	var entry LockSet
+	if fn := site.Parent(); fn != nil {
+		entry = l.Entry[fn]
+	}
 	for k, m := range h {
 		if l.Must {
-			if _, ok := d[k]; ok {
+			// held when the deferred call runs: its release was deferred earlier in this
+			// function (runs later, LIFO), or the lock belongs to the caller (released only
+			// after this function has returned)
+			_, deferredHere := d[k]
+			_, callers := entry[k]
+			if deferredHere || callers {
 				out[k] = m
 			}
 		} else {
